@@ -9,8 +9,11 @@ def _get_epsilons(model, list_of_eps):
     else:
         eps = []
         for eps_str in list_of_eps:
+            # NOTE: Names are matched as given first (epsilons created by
+            # Pharmpy are e.g. epsilon_p), uppercased as a fallback
+            name = eps_str if eps_str in rvs.epsilons.names else eps_str.upper()
             try:
-                eps.append(rvs[eps_str.upper()])
+                eps.append(rvs[name])
             except KeyError:
                 warnings.warn(f'Epsilon "{eps_str}" does not exist')
         return eps
